@@ -697,4 +697,295 @@ theorem visit_cons (f : Int → Rat → Res Bool) (g : GP) (i : Int) (c : Rat) (
 
 theorem visit_nil (f : Int → Rat → Res Bool) (g : GP) : visit f g [] = .ok g := rfl
 
+/-! # `MergeWith` -/
+
+/-- other kind / other page length: the generated code is the oracle `mergeFallback` -/
+theorem mergeWith_fallback (fuel : Nat) (grow : Int → Int → Int) (mf : GP → GP → Res GP) (s o : PStore)
+    (cap cap' : Int) (hlog : s.pageLenLog2 ≠ o.pageLenLog2) :
+    BufferedPaginatedStore.MergeWith fuel grow mf (toGen s cap) (toGen o cap') = mf (toGen s cap) (toGen o cap') := by
+  unfold BufferedPaginatedStore.MergeWith
+  have hb : (((s.pageLenLog2 : Nat) : Int) == ((o.pageLenLog2 : Nat) : Int)) = false := by
+    simp; omega
+  simp only [toGen_pageLenLog2, hb, Bool.and_false, Bool.false_eq_true, if_false]
+  cases mf (toGen s cap) (toGen o cap') <;> rfl
+
+/-! ## the model generalised: compaction bits from the evolving capacity -/
+
+/-- fold of `addUnit` with an explicit stream of compaction bits (missing bits are `true`) -/
+def addUnitsBits : PStore → List Int → List Bool → Option PStore
+  | a, [], _ => some a
+  | a, i :: rest, bits => (a.addUnit i (bits.headD true)).bind (fun a' => addUnitsBits a' rest bits.tail)
+
+/-- the page phase of `mergeSame` -/
+def mergePages (s o : PStore) : Option PStore :=
+  (o.pages.toList.zipIdx).foldlM (PStore.mergePageBody o.minPageIndex) s
+
+/-- `mergeSame` with the compaction bits of the buffer phase as a parameter -/
+def mergeSameBits (s o : PStore) (bits : List Bool) : Option PStore :=
+  (mergePages s o).bind (fun s1 => addUnitsBits s1 o.buffer bits)
+
+theorem addUnitsBits_nil (l : List Int) : ∀ a : PStore,
+    addUnitsBits a l [] = l.foldlM (fun acc i => acc.addUnit i true) a := by
+  induction l with
+  | nil => intro a; rfl
+  | cons i rest ih =>
+    intro a
+    simp only [addUnitsBits, List.headD_nil, List.tail_nil, List.foldlM_cons]
+    cases a.addUnit i true with
+    | none => rfl
+    | some a' => exact ih a'
+
+/-- the hand model's `mergeSame` is the instance "always compact" -/
+theorem mergeSameBits_nil (s o : PStore) : mergeSameBits s o [] = s.mergeSame o := by
+  rw [PStore.mergeSame_eq]
+  unfold mergeSameBits mergePages
+  cases (o.pages.toList.zipIdx).foldlM (PStore.mergePageBody o.minPageIndex) s with
+  | none => rfl
+  | some s1 => exact addUnitsBits_nil _ _
+
+/-! ## fuel -/
+
+def optFuel (r : Option PStore) (k : PStore → Nat) : Nat :=
+  match r with
+  | some a => k a
+  | none => 0
+
+/-- fuel for the buffer phase: the largest `af` over the stores reachable through any choice of compaction bits -/
+def addsFuel (af : PStore → Int → Nat) : PStore → List Int → Nat
+  | _, [] => 0
+  | a, i :: rest =>
+    max (af a i) (max (optFuel (a.addUnit i true) (fun a' => addsFuel af a' rest))
+                      (optFuel (a.addUnit i false) (fun a' => addsFuel af a' rest)))
+
+/-- fuel for the same-kind `MergeWith`: `page` may have to clear a left extension down to `o.minPageIndex` once;
+    then the `Add`s -/
+def mergeFuel (af : PStore → Int → Nat) (s o : PStore) : Nat :=
+  max ((s.minPageIndex - o.minPageIndex + 9).toNat + 2)
+      (optFuel (mergePages s o) (fun s1 => addsFuel af s1 o.buffer))
+
+/-! ## `loop3`: add the lines of one page -/
+
+theorem set_nat {α : Type} (l : List α) (n : Nat) (v : α) (h : n < l.length) :
+    GoSem.set l (n : Int) v = some (l.set n v) := by
+  unfold GoSem.set
+  rw [if_neg (by omega)]
+  simp
+
+theorem pagesL_set (a : PStore) (k : Nat) (pg : Array Rat) :
+    pagesL { a with pages := a.pages.setIfInBounds k pg } = (pagesL a).set k pg.toList := by
+  simp [pagesL, List.map_set]
+
+/-- the successful result of `addAtPage a k m y` -/
+def addLine (a : PStore) (k m : Nat) (y : Rat) : PStore :=
+  { a with pages := a.pages.setIfInBounds k ((a.pages.getD k #[]).setIfInBounds m ((a.pages.getD k #[]).getD m 0 + y)) }
+
+theorem addAtPage_some (a : PStore) (k m : Nat) (y : Rat) (hk : k < a.pages.size)
+    (hm : m < (a.pages.getD k #[]).size) : PStore.addAtPage a k m y = some (addLine a k m y) := by
+  unfold PStore.addAtPage addLine
+  simp only []
+  rw [if_pos ⟨hk, hm⟩]
+
+theorem addAtPage_none (a : PStore) (k m : Nat) (y : Rat)
+    (hm : ¬ m < (a.pages.getD k #[]).size) : PStore.addAtPage a k m y = none := by
+  unfold PStore.addAtPage
+  simp only []
+  rw [if_neg (fun h => hm h.2)]
+
+theorem toGen_setPage (a : PStore) (cap : Int) (k : Nat) (pg : Array Rat) :
+    toGen { a with pages := a.pages.setIfInBounds k pg } cap = { toGen a cap with pages := (pagesL a).set k pg.toList } := by
+  unfold toGen
+  simp only [pagesL_set]
+
+theorem addLine_page (a : PStore) (k m : Nat) (y : Rat) (hk : k < a.pages.size) :
+    (addLine a k m y).pages.getD k #[]
+      = (a.pages.getD k #[]).setIfInBounds m ((a.pages.getD k #[]).getD m 0 + y) := by
+  unfold addLine
+  simp only []
+  rw [PStore.getD_setIfInBounds, if_pos ⟨rfl, hk⟩]
+
+theorem getD_toList_get (pg : Array Rat) (m : Nat) (hm : m < pg.size) : pg.toList[m]? = some (pg.getD m 0) := by
+  simp [Array.getD_eq_getD_getElem?, hm]
+
+theorem mw_loop3 (cap : Int) (k : Nat) : ∀ (ys : List Rat) (m : Nat) (a : PStore),
+    BufferedPaginatedStore.MergeWith.loop3 (k : Int) ys (m : Int) (a.pages.getD k #[]).toList (toGen a cap)
+      = match (ys.zipIdx m).foldlM (fun (a : PStore) (cl : Rat × Nat) => PStore.addAtPage a k cl.2 cl.1) a with
+        | none => .panic
+        | some a' => .done ((a'.pages.getD k #[]).toList, toGen a' cap) := by
+  intro ys
+  induction ys with
+  | nil => intro m a; rfl
+  | cons y ys ih =>
+    intro m a
+    unfold BufferedPaginatedStore.MergeWith.loop3
+    simp only [List.zipIdx_cons, List.foldlM_cons, idx_nat]
+    by_cases hm : m < (a.pages.getD k #[]).size
+    · have hk : k < a.pages.size := by
+        apply Classical.byContradiction
+        intro hk
+        rw [PStore.getD_pages_oob a.pages k (by omega)] at hm
+        simp at hm
+      have hkl : k < (toGen a cap).pages.length := by
+        show k < (pagesL a).length
+        unfold pagesL; simpa using hk
+      rw [getD_toList_get _ m hm, addAtPage_some a k m y hk hm]
+      simp only [optL_some, Option.bind_eq_bind, Option.bind_some]
+      rw [set_nat _ m _ (by simpa using hm)]
+      simp only [optL_some]
+      rw [set_nat _ k _ hkl]
+      simp only [optL_some]
+      have e := ih (m + 1) (addLine a k m y)
+      rw [addLine_page a k m y hk, Array.toList_setIfInBounds] at e
+      have e1 : toGen (addLine a k m y) cap = _ := toGen_setPage a cap k _
+      rw [e1, Array.toList_setIfInBounds] at e
+      have em : (m : Int) + 1 = ((m + 1 : Nat) : Int) := by omega
+      rw [em]
+      exact e
+    · have hget : (a.pages.getD k #[]).toList[m]? = none := by
+        rw [List.getElem?_eq_none]; simpa using hm
+      rw [hget, addAtPage_none a k m y hm]
+      rfl
+
+/-! ## `loop2`: the pages of the other store -/
+
+theorem materialize_min (s : PStore) (k : Nat) : (s.materialize k).minPageIndex = s.minPageIndex := by
+  unfold PStore.materialize; split <;> rfl
+
+/-- the slot that `page` answers is `p - minPageIndex` of the new store -/
+theorem page_slot (s s' : PStore) (p : Int) (e : Bool) (k : Nat) (h : s.page p e = some (s', some k)) :
+    p - s'.minPageIndex = (k : Int) := by
+  unfold PStore.page at h
+  cases hs : s.slot? p with
+  | some k0 =>
+    have hk0 := (PStore.slot?_eq_some s p k0).1 hs
+    rw [hs] at h
+    simp only [Option.some.injEq, Prod.mk.injEq] at h
+    obtain ⟨h1, h2⟩ := h
+    have hmin : s'.minPageIndex = s.minPageIndex := by
+      rw [← h1]
+      cases e
+      · rfl
+      · exact materialize_min s k0
+    have hk : k = k0 := by
+      by_cases hsz : ((if e = true then s.materialize k0 else s).pages.getD k0 #[]).size = 0
+      · rw [if_pos hsz] at h2; cases h2
+      · rw [if_neg hsz] at h2; cases h2; rfl
+    rw [hmin, hk]; omega
+  | none =>
+    rw [hs] at h
+    cases e with
+    | false => simp at h
+    | true =>
+      simp only [Bool.not_true, Bool.false_eq_true, if_false] at h
+      split at h
+      · cases h
+      · rename_i s2 _
+        by_cases hc : 0 ≤ p - s2.minPageIndex ∧ p - s2.minPageIndex < (s2.pages.size : Int)
+        · rw [if_pos hc] at h
+          simp only [Option.some.injEq, Prod.mk.injEq] at h
+          obtain ⟨h1, h2⟩ := h
+          rw [← h1, ← h2, materialize_min]
+          omega
+        · rw [if_neg hc] at h; cases h
+
+theorem addAtPage_min (a a' : PStore) (k m : Nat) (y : Rat) (h : PStore.addAtPage a k m y = some a') :
+    a'.minPageIndex = a.minPageIndex := by
+  unfold PStore.addAtPage at h
+  simp only [] at h
+  split at h
+  · cases h; rfl
+  · cases h
+
+theorem foldAddAtPage_min (k : Nat) : ∀ (l : List (Rat × Nat)) (a a' : PStore),
+    l.foldlM (fun (a : PStore) (cl : Rat × Nat) => PStore.addAtPage a k cl.2 cl.1) a = some a' →
+    a'.minPageIndex = a.minPageIndex := by
+  intro l
+  induction l with
+  | nil => intro a a' h; cases h; rfl
+  | cons x l ih =>
+    intro a a' h
+    simp only [List.foldlM_cons] at h
+    cases h1 : PStore.addAtPage a k x.2 x.1 with
+    | none => rw [h1] at h; cases h
+    | some a1 =>
+      rw [h1] at h
+      rw [ih a1 a' h, addAtPage_min a a1 k x.2 x.1 h1]
+
+theorem loop3_nil_page (slot : Int) (y : Rat) (ys : List Rat) (g : GP) :
+    BufferedPaginatedStore.MergeWith.loop3 slot (y :: ys) 0 [] g = .panic := by
+  unfold BufferedPaginatedStore.MergeWith.loop3
+  rfl
+
+theorem mw_loop2 (hpage : PageSpec) (o : PStore) (cap cap' : Int) (fuel : Nat) :
+    ∀ (xs : List (Array Rat)) (n : Nat) (a : PStore),
+      (∀ p : Int, o.minPageIndex + (n : Int) ≤ p → pageFuel a p ≤ fuel) →
+      BufferedPaginatedStore.MergeWith.loop2 fuel (toGen o cap') (xs.map Array.toList) (n : Int) (toGen a cap)
+        = match (xs.zipIdx n).foldlM (PStore.mergePageBody o.minPageIndex) a with
+          | none => .panic
+          | some a' => .done (toGen a' cap) := by
+  intro xs
+  induction xs with
+  | nil => intro n a _; rfl
+  | cons pg xs ih =>
+    intro n a hfu
+    have en : (n : Int) + 1 = ((n + 1 : Nat) : Int) := by omega
+    simp only [List.map_cons, List.zipIdx_cons, List.foldlM_cons]
+    unfold BufferedPaginatedStore.MergeWith.loop2
+    by_cases hz : pg.size = 0
+    · have hb : (GoSem.len pg.toList == (0 : Int)) = true := by simp [GoSem.len, hz]
+      have hbody : PStore.mergePageBody o.minPageIndex a (pg, n) = some a := by
+        simp [PStore.mergePageBody, hz]
+      rw [hbody]
+      simp only [hb, if_true, Option.bind_eq_bind, Option.bind_some]
+      rw [en]
+      exact ih (n + 1) a (fun p hp => hfu p (by omega))
+    · have hb : (GoSem.len pg.toList == (0 : Int)) = false := by
+        simpa [GoSem.len] using hz
+      simp only [hb, Bool.false_eq_true, if_false, toGen_minPageIndex]
+      rw [hpage a cap (o.minPageIndex + (n : Int)) true fuel (hfu _ (Int.le_refl _))]
+      cases hpg : a.page (o.minPageIndex + (n : Int)) true with
+      | none =>
+        have hbody : PStore.mergePageBody o.minPageIndex a (pg, n) = none := by
+          simp [PStore.mergePageBody, hz, hpg]
+        rw [hbody]; rfl
+      | some r =>
+        obtain ⟨a1, k?⟩ := r
+        cases k? with
+        | none =>
+          have hbody : PStore.mergePageBody o.minPageIndex a (pg, n) = none := by
+            simp [PStore.mergePageBody, hz, hpg]
+          rw [hbody]
+          simp only [toRes_some, Res.bindL_ok, pageOf]
+          obtain ⟨y, ys, hys⟩ : ∃ y ys, pg.toList = y :: ys := by
+            cases hl : pg.toList with
+            | nil => exfalso; apply hz; simpa using congrArg List.length hl
+            | cons y ys => exact ⟨y, ys, rfl⟩
+          rw [hys, loop3_nil_page]
+          rfl
+        | some k =>
+          have hslot := page_slot a a1 _ true k hpg
+          have hbody : PStore.mergePageBody o.minPageIndex a (pg, n) =
+              (pg.toList.zipIdx).foldlM (fun (a : PStore) (cl : Rat × Nat) => PStore.addAtPage a k cl.2 cl.1) a1 := by
+            simp [PStore.mergePageBody, hz, hpg]
+          rw [hbody]
+          simp only [toRes_some, Res.bindL_ok, pageOf, toGen_minPageIndex, hslot]
+          have h3 := mw_loop3 cap k pg.toList 0 a1
+          simp only [Int.natCast_zero] at h3
+          rw [h3]
+          cases hfold : (pg.toList.zipIdx).foldlM (fun (a : PStore) (cl : Rat × Nat) => PStore.addAtPage a k cl.2 cl.1) a1 with
+          | none => rfl
+          | some a2 =>
+            simp only [Loop.elimL, Option.bind_eq_bind, Option.bind_some]
+            rw [en]
+            apply ih (n + 1) a2
+            intro p hp
+            have hmin : a2.minPageIndex = a1.minPageIndex := foldAddAtPage_min k _ a1 a2 hfold
+            have : pageFuel a2 p = 1 := by
+              unfold pageFuel
+              rw [if_pos (Or.inr (by rw [hmin]; omega))]
+            rw [this]
+            have := hfu _ (Int.le_refl (o.minPageIndex + (n : Int)))
+            have h1 : 1 ≤ pageFuel a (o.minPageIndex + (n : Int)) := by
+              unfold pageFuel; split <;> omega
+            omega
+
 end DDS.GenPag
